@@ -518,9 +518,9 @@ func init() {
 	mon.Register(&mon.Property{
 		ID:    "C17",
 		Level: "exploration",
-		Rule: "Exhaustive over platform.GetPlatformNames() x embedded files (both ways), all levels of every definition, all ordered level pairs, " +
-			"all 2^8 section subsets of generated variants per platform, the shipped variant and the test-fixture definitions; transport segmentation, " +
-			"end of line, read size and the level the device starts in are PRNG/rotation-derived per round. " +
+		Rule: "Exhaustive in the property's own dimensions: platform.GetPlatformNames() x embedded files (both ways), all levels of every definition, all ordered level pairs " +
+			"(targets without escalate command excluded), all 2^8 section subsets of generated variants per platform, the shipped variant, the test-fixture definitions, " +
+			"the three user options alone and together; sampled per round (quick 1, thorough 20): transport segmentation, end of line, read size, order of targets, level at Close. " +
 			"Non-trivial = the definition has >= 2 levels (static: invariants over all of them; dynamic: Open from a chosen level, all pairs from one source level, Close). " +
 			"Distinct = distinct descriptor hash.",
 		Assumptions: []string{
